@@ -156,9 +156,8 @@ NOT_COVERED = {
             'flatten (+ off_col / + off_line overflow, design-phase defect D6), rewrite, adjust_mappings, range bitfield writer (D4), decode_hermes', 'allocation in proportion to the input; wall-clock (only termination is proved)'],
     'C08': ['flatten (token translation, contents, ignore list, nested indexes)', 'agreement lemma lookup vs flatten', 'DecodedMap::lookup_token dispatch (assumed naming)'],
     'C14': ['decode_hermes function-map decoding (running column/name/line state)', 'get_original_function_name wrapper', 'stability under serialise/decode'],
-    'C01': ['mapping-level inverse lemma decode(encode(ts)) == dedup(ts) (spec level)', 'as_raw_sourcemap field plumbing (SourceMap / SourceMapIndex / Hermes)',
-            'decode_regular tail (names / sources / contents / file / debug id / ignore list conversions)', 'serde_json layer'],
-    'C02': ['lenient names/file/sources conversions and debug_id precedence in the tail of decode_regular (bounded stand-in decode_document only)', 'termination of the decode_index / decode_common recursion (bounded by serde_json)'],
+    'C01': ['mapping-level inverse lemma decode(encode(ts)) == dedup(ts) (spec level)', 'as_raw_sourcemap field plumbing (SourceMap / SourceMapIndex / Hermes): bounded stand-in roundtrip only', 'serde_json layer'],
+    'C02': ['the six `let` lines of decode_regular that unpack the raw document (checked textually, not verified)', 'termination of the decode_index / decode_common recursion (bounded by serde_json)', 'decode_hermes'],
     'C03': ['as_raw_sourcemap field plumbing and the serde skip_serializing_if attributes', 'index-map sections', '"an independent decoder reads it back" needs the mapping-level inverse lemma'],
     'C07': ['spec-level lemma that the reference bitfield reader inverts the reference writer (both sides are proved equal to their reference, the inverse lemma itself is not yet written)'],
     'C11': ['an independent syntactic characterisation of canonical texts (canonical is defined as the image of the reference encoder)'],
